@@ -8,23 +8,31 @@ import (
 var (
 	// cacheTimeZone caches time.Location to avoid allocs and increase performance.
 	// time.Location should only need to be calculated once.
-	cacheTimeZone  = map[int32]*time.Location{}
+	cacheTimeZone  = map[zoneKey]*time.Location{}
 	mutexTimeZones = sync.RWMutex{}
 )
+
+// zoneKey identifies a cached zone: the name is part of the key, so that a zone is
+// never reported under the name another file used for the same offset.
+type zoneKey struct {
+	offset int32
+	name   string
+}
 
 // getLocation faciliates an offset and a time string to result
 // with a *time.Location creating it when not cound in the cache.
 // RWMutex for concurrancy.
 func getLocation(offset int32, buf []byte) *time.Location {
+	key := zoneKey{offset: offset, name: string(buf)}
 	mutexTimeZones.RLock()
-	if z, ok := cacheTimeZone[offset]; ok {
+	if z, ok := cacheTimeZone[key]; ok {
 		mutexTimeZones.RUnlock()
 		return z
 	}
 	mutexTimeZones.RUnlock()
 	mutexTimeZones.Lock()
 	l := time.FixedZone(string(buf), int(offset))
-	cacheTimeZone[offset] = l
+	cacheTimeZone[key] = l
 	mutexTimeZones.Unlock()
 	return l
 }
